@@ -30,4 +30,5 @@ package capacity
 
 //@ func NewWorkSpace
 //@   assert-at return#4 opened-db-has-the-requested-key: lastEq
-//@   ensures state-from-progress: err == nil ==> result0 != nil && result0.state == ite(lastresult("Progress", 1), 2, 0) && result0.rootDir == rootDir
+//@   ensures loaded-space-shape: err == nil ==> result0 != nil && (result0.state == 0 || result0.state == 2) && result0.rootDir == rootDir
+//@   ensures state-from-progress: err == nil ==> result0.state == ite(lastresult("Progress", 1), 2, 0)
